@@ -60,6 +60,10 @@ type c15Op struct {
 }
 
 type c15State struct {
+	// loaded script sets are kept across operations, so that histories
+	// contain run-after-run sequences with no load (and hence no check pass
+	// re-initialising pooled tasks) in between
+	loaded  map[string]map[string]*plrt.Script
 	parsers map[uintptr]bool
 	tasks   map[uintptr]bool
 	points  map[uintptr]bool
@@ -106,6 +110,11 @@ var c15Srcs = map[string]string{
 	"xml-sql":       "add_key(doc, \"<a><b>x</b></a>\")\nxml(doc, \"/a/b\", got)\nadd_key(q, \"select 1 from t where a = 'b'\")\nsql_cover(q)\np(got, q)\n",
 	"json":          "j = load_json(\"{\\\"a\\\": [1, 2.5, {\\\"b\\\": null}]}\")\np(j, j[\"a\"][-1], len(j))\nadd_key(jj, j)\n",
 	"rename-tag":    "set_tag(tt, \"v\")\nrename(t2, tt)\nset_tag(f1)\ndrop_key(f2)\nset_measurement(\"mm\")\np(t2, f1, f2)\n",
+	"fail-nested-vars": "a = \"leak-a\"\ns = \"leak-s\"\nw = \"leak-w\"\nn = 99\nadd_pattern(\"leakp\", \"x+\")\nif true {\n  for i = 0; i < 2; i = i + 1 {\n    q = 1 / (1 - i)\n  }\n}\np(\"unreachable\")\n",
+	"fail-in-use-branch": "x = \"caller-private\"\nok = \"stale-ok\"\nif true {\n  use(\"badrun.p\")\n}\n",
+	"reader":        "p(a, s, w, n, x, ok, q, i, b)\nadd_key(seen_a, a)\nadd_key(seen_x, x)\n",
+	"reader-use":    "use(\"reader2.p\")\np(a, x)\n",
+	"reader2":       "p(a, s, w, n, x, ok)\n",
 	"lib":           "add_key(from_lib, \"lib\")\nb = 2\n",
 	"badrun":        "add_key(in_bad, 1)\nboom()\n",
 }
@@ -151,7 +160,7 @@ func (st *c15State) notePoint(pt *input.Point) {
 }
 
 func c15RunV1(st *c15State, main string, rs *drive.RunState, opts ...plrt.Opt) string {
-	set := map[string]string{"main.p": c15Srcs[main], "lib.p": c15Srcs["lib"], "badrun.p": c15Srcs["badrun"]}
+	set := map[string]string{"main.p": c15Srcs[main], "lib.p": c15Srcs["lib"], "badrun.p": c15Srcs["badrun"], "reader2.p": c15Srcs["reader2"]}
 	drive.Init()
 	var ok map[string]*plrt.Script
 	var errs map[string]error
@@ -163,10 +172,17 @@ func c15RunV1(st *c15State, main string, rs *drive.RunState, opts ...plrt.Opt) s
 				out = fmt.Sprintf("PANIC %v", r)
 			}
 		}()
-		ok, errs = engine.ParseScript(set, c15Call, c15Check)
-		if e := errs["main.p"]; e != nil {
-			out = "load error: " + errText(e)
-			return
+		if st.loaded == nil {
+			st.loaded = map[string]map[string]*plrt.Script{}
+		}
+		ok = st.loaded[main]
+		if ok == nil {
+			ok, errs = engine.ParseScript(set, c15Call, c15Check)
+			if e := errs["main.p"]; e != nil {
+				out = "load error: " + errText(e)
+				return
+			}
+			st.loaded[main] = ok
 		}
 		pt := c15Point()
 		st.notePoint(pt)
@@ -199,7 +215,7 @@ func c15RunV1(st *c15State, main string, rs *drive.RunState, opts ...plrt.Opt) s
 func c15Pool(seed int64) []c15Op {
 	var ops []c15Op
 	for _, name := range []string{"ok-simple", "ok-grok", "ok-loop", "ok-containers", "fail-mid-loop", "fail-type", "exit-early", "use-ok", "use-fail",
-		"void-after-val", "regs-full", "strfmt-print", "time", "xml-sql", "json", "rename-tag"} {
+		"void-after-val", "regs-full", "strfmt-print", "time", "xml-sql", "json", "rename-tag", "fail-nested-vars", "fail-in-use-branch", "reader", "reader-use"} {
 		name := name
 		ops = append(ops, c15Op{"run:" + name, func(st *c15State) string { return c15RunV1(st, name, &drive.RunState{Budget: 20000}) }})
 	}
@@ -269,9 +285,17 @@ func c15Pool(seed int64) []c15Op {
 		src := gt.Print(stmts, nil)
 		ops = append(ops, c15Op{fmt.Sprintf("run:generated-%d", j), func(st *c15State) string {
 			drive.Init()
-			ok, errs := engine.ParseScript(map[string]string{"g.p": src}, c15Call, c15Check)
-			if e := errs["g.p"]; e != nil {
-				return "load error: " + errText(e)
+			if st.loaded == nil {
+				st.loaded = map[string]map[string]*plrt.Script{}
+			}
+			ok := st.loaded[src]
+			if ok == nil {
+				var errs map[string]error
+				ok, errs = engine.ParseScript(map[string]string{"g.p": src}, c15Call, c15Check)
+				if e := errs["g.p"]; e != nil {
+					return "load error: " + errText(e)
+				}
+				st.loaded[src] = ok
 			}
 			pt := c15Point()
 			st.notePoint(pt)
